@@ -226,6 +226,8 @@ func (x *Exec) applyContract(f *frame, n *node, c *Contract, callee *ssa.Functio
 			// values produced by dependencies have dynamic types from outside the module
 			x.assume(TTrue, Lt(App("dyntype", SInt, v.C[0]), Num(0)), "external dynamic type")
 			x.assume(TTrue, Not(App("pkgerr", SBool, v.C[0])), "errors from dependencies are not the package's sentinels")
+			tb := BVar("t?fe", SInt)
+			x.assumeNeed("Is", Forall([]*Term{tb}, Implies(App("pkgerr", SBool, tb), Not(App("Is", SBool, v.C[0], tb))), App("Is", SBool, v.C[0], tb)))
 		}
 		res = append(res, v)
 	}
